@@ -235,8 +235,16 @@ func catchPanic(function func()) (err error) {
 				err = &Error{caught}
 				return
 			case Value:
-				if vl := caught.object(); vl != nil {
-					if vl, ok := vl.value.(ottoError); ok {
+				if obj := caught.object(); obj != nil {
+					if vl, ok := obj.value.(ottoError); ok {
+						// Describe the error as it is when thrown: name and
+						// message may have been assigned after construction.
+						if name := obj.get("name"); name.IsString() {
+							vl.name = name.string()
+						}
+						if message := obj.get("message"); message.IsString() {
+							vl.message = message.string()
+						}
 						err = &Error{vl}
 						return
 					}
